@@ -92,7 +92,9 @@ def run(ck):
                 want_shapes = {"BinaryRBM": [("nh", "nv"), ("nv",), ("nh",)], "PurificationRBM": [("nh", "nv"), ("na", "nv"), ("nv",), ("nh",), ("na",)]}[RBM_OF[cls]]
                 for m in mods:
                     ps = module_params(it, m)
-                    ck.check([q.shape for _, q in ps] == want_shapes, "C20.R3", inst + ":parameter shapes", isite, "parameter shapes %s, expected %s" % ([q.shape for _, q in ps], want_shapes))
+                    # the multiset of shapes (which parameter is registered first is C03's / C06's business, not this property's)
+                    ck.check(sorted(map(str, [q.shape for _, q in ps])) == sorted(map(str, want_shapes)), "C20.R3", inst + ":parameter shapes", isite,
+                             "parameter shapes %s, expected %s" % ([q.shape for _, q in ps], want_shapes))
                     for nme, q in ps:
                         t = q.term
                         if len(q.shape) == 2:
@@ -134,7 +136,8 @@ def run(ck):
                             done.append(n)
                 ck.check(sorted(done) == sorted(nets), "C20.R4", inst + ":every network redrawn", rsite, "initialize_parameters is called for %s; networks are %s" % (done, nets))
                 after = {n: [q.shape for _, q in module_params(it, it.get_attr(s, n, None))] for n in nets}
-                ck.check(after == before, "C20.R4", inst + ":shapes unchanged", rsite, "parameter shapes change on reinitialisation")
+                ck.check({n: sorted(map(str, v)) for n, v in after.items()} == {n: sorted(map(str, v)) for n, v in before.items()}, "C20.R4", inst + ":shapes unchanged", rsite,
+                         "parameter shapes change on reinitialisation")
                 sizes2 = {k: num_term(v) for k, v in s.inst.attrs.items() if k.startswith("num_")}
                 ck.check(sizes2 == sizes, "C20.R4", inst + ":sizes unchanged", rsite, "num_* attributes change on reinitialisation")
                 # values: the state was built with arbitrary ("trained") parameter values rbm_*.<name>; after reinitialisation no
